@@ -150,6 +150,12 @@ func (x *xctx) countOf(arg string, base string) (string, bool) {
 
 // v, e, bx := <recv>.Execute(rb.Dc)
 func (x *xctx) isExecAssign(s ast.Stmt) (recv ast.Expr, errVar, flagVar string, ok bool) {
+	recv, _, errVar, flagVar, ok = x.isExecAssignV(s)
+	return
+}
+
+// same, also returning the variable that receives the rule's value
+func (x *xctx) isExecAssignV(s ast.Stmt) (recv ast.Expr, valVar, errVar, flagVar string, ok bool) {
 	as, isAs := s.(*ast.AssignStmt)
 	if !isAs || len(as.Lhs) != 3 || len(as.Rhs) != 1 {
 		return
@@ -162,16 +168,21 @@ func (x *xctx) isExecAssign(s ast.Stmt) (recv ast.Expr, errVar, flagVar string, 
 	if !isSel || sel.Sel.Name != "Execute" || len(call.Args) != 1 || x.src(call.Args[0]) != "rb.Dc" {
 		return
 	}
-	return sel.X, x.src(as.Lhs[1]), x.src(as.Lhs[2]), true
+	return sel.X, x.src(as.Lhs[0]), x.src(as.Lhs[1]), x.src(as.Lhs[2]), true
 }
 
-// if bx { g.addResult(<r>.RuleName, v) }
-func (x *xctx) isAddResult(s ast.Stmt, flagVar string) bool {
+// if bx { g.addResult(<recv>.RuleName, <v>) } — the name of the rule that was just executed and the value it returned
+func (x *xctx) isAddResult(s ast.Stmt, flagVar string, exec ast.Stmt) bool {
 	is, ok := s.(*ast.IfStmt)
 	if !ok || is.Init != nil || is.Else != nil || x.src(is.Cond) != flagVar || len(is.Body.List) != 1 {
 		return false
 	}
-	return strings.HasPrefix(x.src(is.Body.List[0]), "g.addResult(") && strings.Contains(x.src(is.Body.List[0]), ".RuleName,")
+	recv, valVar, _, _, isExec := x.isExecAssignV(exec)
+	if !isExec || valVar == "_" {
+		return false
+	}
+	want := "g.addResult(" + strings.ReplaceAll(x.src(recv), " ", "") + ".RuleName," + valVar + ")"
+	return strings.ReplaceAll(x.src(is.Body.List[0]), " ", "") == want
 }
 
 func isReturnErr(x *xctx, s ast.Stmt) bool {
@@ -263,7 +274,7 @@ func (x *xctx) seqBody(loopVar string, body []ast.Stmt) (pol string, tag bool, o
 		return
 	}
 	i++
-	if i >= len(body) || !x.isAddResult(body[i], flagVar) {
+	if i >= len(body) || !x.isAddResult(body[i], flagVar, body[i-1]) {
 		return
 	}
 	i++
@@ -292,7 +303,7 @@ func (x *xctx) goBody(cur string, body []ast.Stmt) (wg string, ok bool) {
 		return
 	}
 	recv, errVar, flagVar, isExec := x.isExecAssign(body[0])
-	if !isExec || x.src(recv) != cur || !x.isAddResult(body[1], flagVar) {
+	if !isExec || x.src(recv) != cur || !x.isAddResult(body[1], flagVar, body[0]) {
 		return
 	}
 	is, isIf := body[2].(*ast.IfStmt)
@@ -375,7 +386,7 @@ func (x *xctx) block(stmts []ast.Stmt) []string {
 			}
 			// v, e, bx := rules[0].Execute(rb.Dc) ; if bx {...} ; if e != nil { return ... }   |  return e
 			if recv, errVar, flagVar, ok := x.isExecAssign(s); ok {
-				if b, w, ok2 := x.elemOf(recv); ok2 && i+2 < len(stmts) && x.isAddResult(stmts[i+1], flagVar) {
+				if b, w, ok2 := x.elemOf(recv); ok2 && i+2 < len(stmts) && x.isAddResult(stmts[i+1], flagVar, s) {
 					if p, pok := x.policy(stmts[i+2], errVar); pok && p == "StopFirst" {
 						out = append(out, fmt.Sprintf("ISeq %s %s StopFirst false", b, w))
 						i += 2
@@ -600,8 +611,25 @@ func xlateEngine(args []string) error {
 		return err
 	}
 	progs := map[string]string{}
+	helpers := map[string]bool{}
 	for _, d := range f.Decls {
 		fd, ok := d.(*ast.FuncDecl)
+		if ok && fd.Recv != nil && fd.Body != nil && (fd.Name.Name == "addResult" || fd.Name.Name == "GetRulesResultMap") {
+			hx := &xctx{fset: fset}
+			var lines []string
+			for _, st := range fd.Body.List {
+				lines = append(lines, strings.ReplaceAll(hx.src(st), " ", ""))
+			}
+			sig := strings.ReplaceAll(hx.src(fd.Type), " ", "")
+			body := strings.Join(lines, ";")
+			switch fd.Name.Name {
+			case "addResult": // one store of the value under the name, under the engine's lock
+				helpers["addResult"] = sig == "func(namestring,returnResultinterface{})" && body == "g.lock.Lock();deferg.lock.Unlock();g.returnResult[name]=returnResult"
+			case "GetRulesResultMap": // hands back the map itself
+				helpers["GetRulesResultMap"] = body == "returng.returnResult,nil"
+			}
+			continue
+		}
 		if !ok || fd.Recv == nil || fd.Body == nil || !strings.HasPrefix(fd.Name.Name, "Execute") {
 			continue
 		}
@@ -645,6 +673,7 @@ func xlateEngine(args []string) error {
 	for _, n := range names {
 		fmt.Fprintf(w, "Definition %s : list instr :=\n  %s.\n", n, progs[n])
 	}
+	fmt.Fprintf(w, "(* addResult is exactly { lock; defer unlock; returnResult[name] = value } and GetRulesResultMap returns the map itself *)\nDefinition gen_result_helpers_ok : bool := %v.\n", helpers["addResult"] && helpers["GetRulesResultMap"])
 	fmt.Fprintln(w, "Definition gen (e : entry) : list instr :=\n  match e with")
 	for _, n := range allEntries {
 		if _, ok := progs[n]; ok {
